@@ -38,7 +38,7 @@ CLAIMED = {
   text="Print/parse round trip from the attribute AST on the MIR of WinnowBlockTagParser::next (candidate '<' scan, fall-through, cursor arithmetic) and of parse_start_tag / parse_end_tag / parse_attributes / parse_attribute_name / parse_attribute_value with their closures: for every enumerated layout (0-3 attributes quick, up to 6 thorough; bare / unquoted / single- / double-quoted; 0-2 whitespace bytes around '=' and between attributes; 1-4 tags and look-alikes per text; noise gaps) and every value of all name, value, whitespace and noise bytes within their classes, Z3 shows that the events returned are exactly the written tags with their byte ranges, that the attribute map holds every written name with the value of its last occurrence (name equality symbolic) and nothing else, that `<`ws`/`ws`block`ws`>` is an end tag, and that members of five look-alike families yield no event.",
   note="Trusted: interpreter, string/HashMap models and the models of the generic winnow 0.7 combinators (mirsym/winnowmodel.py: literal, take_while, take_till, multispace0/1, tuples, delimited, preceded, opt, alt, repeat+fold, map, void, parse_next/parse_peek) - winnow's own code is not encoded, like std; which combinators, literals, ranges and character predicates the grammar uses is read from the crate's MIR each run, and sampled paths are compared with the real binary's `list` output. char::is_alphanumeric beyond ASCII only on literal letters. Noise gaps <= 3 bytes; position -> line/column is C03/C04; what tree-sitter delivers as comment text is outside."),
  'C04': dict(
-  text="Z3 is asked, on every path of the MIR, whether a panic outcome (assert failure, expect/unwrap/unreachable, slice or char-boundary failure) is reachable: in the eleven comment normaliser closures for every comment text up to N bytes that starts with the opener its grammar guarantees (closing delimiters not assumed, plus one multi-byte prefix probe for Markdown), in line_changes + the intersection functions for every diff shape of C01, and in the tag pairing / position arithmetic for the comment sequences of C12. Reachable panics are reported when a file of a language routed to that normaliser crashes the real binary; others are listed as unconfirmed.",
+  text="Z3 is asked, on every path of the MIR, whether a panic outcome (assert failure, expect/unwrap/unreachable, slice or char-boundary failure) is reachable: in the eleven comment normaliser closures for every comment text up to N bytes that starts with the opener its grammar guarantees (closing delimiters not assumed, plus one multi-byte prefix probe for Markdown), in line_changes + the intersection functions for every diff shape of C01, and in the tag pairing / position arithmetic for the comment sequences of C12, and in the crate's walk over model syntax trees, whose deepest call nesting must not grow with the nesting depth of the tree (chains of depth 8 and 40). Reachable panics are reported when a file of a language routed to that normaliser crashes the real binary; others are listed as unconfirmed.",
   note="Rust side only. Outside: tree-sitter and its generated C parsers (crashes, hangs, stack depth), unidiff's text parser, winnow's own code (combinator models), clap, the OS; non-ASCII text except the one probe; termination is covered only as 'every encoded loop exhausts within the step bound on every path'."),
  'C12': dict(
   text="For every sequence of up to 3-4 comments drawn from templates with 0-2 tag events each (tags on first or later comment lines, end tags also in the `</ block >` spelling), with symbolic comment geometry, the MIR of parse_blocks_from_comments / PartialBlocksIterator::next returns Err exactly when the running depth dips below 0 or ends above 0; and through parse_file / parse_blocks, with a damaged file among two healthy ones in scan and in diff mode and several map orders, the run returns Err whose context names the damaged file.",
@@ -56,7 +56,7 @@ CLAIMED = {
   text="On the MIR of lua_from_env, for BLOCKWATCH_LUA_MODE unset and for every value of up to N bytes: exactly `safe` selects the safe constructor (io, os, package present; no debug, no native loading), exactly `unsafe` the unsafe one, every other string yields an interpreter whose globals contain none of io, os, package, debug, require, dofile, loadfile and which cannot load native modules.",
   note="The Lua VM and mlua are a contract stub (library flags as sets, base library per the Lua 5.4 manual, native loading per mlua's constructors); the contract is compared with the real VM through a probe script on sampled modes in every run. What the Lua C library does beyond that is outside."),
  'C03': dict(
-  text="Rust side only. (a) For every balanced sequence of up to 3-4 comments drawn from templates with 0-2 tag events each, with symbolic comment geometry (line, column, byte offset; ordered, non-overlapping), the MIR of parse_blocks_from_comments / BlockStart::new / source_position_at / into_block returns exactly the innermost-first matching, in source order, each block with the name, '<'/'>' positions, content byte range and content position range of the reference (Z3 terms over the geometry). (b) For every comment text up to N bytes the eleven normaliser closures return text of the same length in which every byte is kept or blanked and line breaks stay in place.",
+  text="Rust side only. (a) For every balanced sequence of up to 3-4 comments drawn from templates with 0-2 tag events each, with symbolic comment geometry (line, column, byte offset; ordered, non-overlapping), the MIR of parse_blocks_from_comments / BlockStart::new / source_position_at / into_block returns exactly the innermost-first matching, in source order, each block with the name, '<'/'>' positions, content byte range and content position range of the reference (Z3 terms over the geometry). (b) For every comment text up to N bytes the eleven normaliser closures return text of the same length in which every byte is kept or blanked and line breaks stay in place. (c) On model syntax trees (every ordered tree up to 5-6 nodes, comment-ness of every node symbolic) the crate's walk (TreeSitterCommentsParser::parse, CommentsIterator) produces exactly the comment nodes, each once, in document order, with the node's position and byte range.",
   note="The largest exclusion of the suite: tree-sitter (which nodes exist, their kinds and ranges; string literals; 23 grammars; CRLF) are stubs; the tag scanner and grammar run from the crate's MIR on each template's text (winnow combinators are models, C05). What is claimed is the Rust side."),
  'C20': dict(
   text="For concrete multi-file scenarios executed on the real MIR of detect_validators, validators::run (sync path), the sync validators and process_violations, with the iteration order of every hash map and the validator spawn order chosen by the solver (all permutations of <=3 entries) and one severity attribute symbolic: the instantiated validators, the merged violations (as multisets), and the exit status are identical across all orders; parse_blocks examines the same files and produces the same keys under every walk/map order; diff sections in every order give the same line changes. An async scenario (four check-lua blocks, one check-ai block, one sync validator; healthy and with one failing script) on the coroutine MIR gives one verdict under every completion order of the tokio tasks, every map order and every core count in [1,16] (symbolic).",
